@@ -57,6 +57,10 @@ func (x *Exec) gset(st *State, name string, idx, v *Term) {
 }
 
 func (x *Exec) ioFail(st *State, what string) *Term {
+	if rc := x.rootOrCon(); rc != nil && rc.ReliableIO {
+		x.assumed["reliable_io: file operations of "+rc.Key+" do not fail for environmental reasons (open, stat, read errors other than end of file)"] = true
+		return x.c.False()
+	}
 	fail := x.c.Fresh("iofail_"+what, SBool)
 	x.heapSet(st, "ghost.iofail", x.c.Or(x.gcomp(st, "ghost.iofail"), fail))
 	return fail
@@ -114,7 +118,7 @@ func init() {
 		f := x.allocRef(st, "file")
 		err := x.freshErr(st, "open_err")
 		fail := x.ioFail(st, "open")
-		_ = fail
+		x.assume(st, c.Eq(c.Neq(err.T, c.Int(0)), fail))
 		x.gset(st, "ghost.fid", f, x.pathID(name.T))
 		x.gset(st, "ghost.fpos", f, x.idxLit(0))
 		fn, _ := x.calleeFunc(e)
@@ -147,10 +151,13 @@ func init() {
 		x.assumed["os.File.Seek(off, io.SeekStart) sets the file position (errors not modelled)"] = true
 		return []Val{off, x.freshErr(st, "seek_err")}
 	}
-	libMods["os.File.Seek"] = func(x *Exec, ms *modSet, e *ast.CallExpr) { ms.add("ghost.fpos", SArr(SInt, x.idxSort())) }
+	libMods["os.File.Seek"] = func(x *Exec, ms *modSet, e *ast.CallExpr) {
+		ms.addAt("ghost.fpos", SArr(SInt, x.idxSort()), recvExpr(e), x.info)
+	}
 	libModels["os.File.Stat"] = func(x *Exec, st *State, e *ast.CallExpr, recv *Val) []Val {
 		fi := x.allocRef(st, "fileinfo")
 		err := x.freshErr(st, "stat_err")
+		x.assume(st, x.c.Eq(x.c.Neq(err.T, x.c.Int(0)), x.c.Or(x.ioFail(st, "stat"), x.c.Eq(recv.T, x.c.Int(0)))))
 		x.gset(st, "ghost.fisize", fi, x.gsel(st, "ghost.fsize", x.gsel(st, "ghost.fid", recv.T)))
 		fn, _ := x.calleeFunc(e)
 		ft := fn.Type().(*types.Signature).Results().At(0).Type()
@@ -215,7 +222,10 @@ func init() {
 		x.gset(st, "ghost.rpos", recv.T, x.gsel(st, "ghost.fpos", fd.T))
 		return nil
 	}
-	libMods["bufio.Reader.Reset"] = readerMod
+	libMods["bufio.Reader.Reset"] = func(x *Exec, ms *modSet, e *ast.CallExpr) {
+		ms.addAt("ghost.rfile", SArr(SInt, SInt), recvExpr(e), x.info)
+		ms.addAt("ghost.rpos", SArr(SInt, x.idxSort()), recvExpr(e), x.info)
+	}
 	libModels["bufio.Reader.Discard"] = func(x *Exec, st *State, e *ast.CallExpr, recv *Val) []Val {
 		c := x.c
 		n := x.toIdx(st, x.expr(st, e.Args[0]))
@@ -234,7 +244,7 @@ func init() {
 		return []Val{got, err}
 	}
 	libMods["bufio.Reader.Discard"] = func(x *Exec, ms *modSet, e *ast.CallExpr) {
-		ms.add("ghost.rpos", SArr(SInt, x.idxSort()))
+		ms.addAt("ghost.rpos", SArr(SInt, x.idxSort()), recvExpr(e), x.info)
 		ms.add("ghost.iofail", SBool)
 	}
 	libModels["io.ReadFull"] = func(x *Exec, st *State, e *ast.CallExpr, recv *Val) []Val {
@@ -262,7 +272,7 @@ func init() {
 	}
 	libMods["io.ReadFull"] = func(x *Exec, ms *modSet, e *ast.CallExpr) {
 		ms.add(memComp(u8), x.memSort(u8))
-		ms.add("ghost.rpos", SArr(SInt, x.idxSort()))
+		ms.addAt("ghost.rpos", SArr(SInt, x.idxSort()), e.Args[0], x.info)
 		ms.add("ghost.iofail", SBool)
 		ms.add("G.io.EOF", SInt)
 	}
@@ -294,8 +304,8 @@ func init() {
 		return []Val{n, err}
 	}
 	writeMod := func(x *Exec, ms *modSet, e *ast.CallExpr) {
-		ms.add("ghost.wdata", SArr(SInt, SArr(x.idxSort(), x.byteSort())))
-		ms.add("ghost.wlen", SArr(SInt, x.idxSort()))
+		ms.addAt("ghost.wdata", SArr(SInt, SArr(x.idxSort(), x.byteSort())), recvExpr(e), x.info)
+		ms.addAt("ghost.wlen", SArr(SInt, x.idxSort()), recvExpr(e), x.info)
 		ms.add("ghost.iofail", SBool)
 	}
 	for _, k := range []string{"io.Writer.Write", "bufio.Writer.Write", "bytes.Buffer.Write"} {
@@ -317,6 +327,9 @@ func registerGhostIO(e *Engine) {
 	g["envFailed"] = g["ioFailed"]
 	fileID := func(x *Exec, st *State, a ast.Expr) *Term {
 		f := x.expr(st, a)
+		if x.isFileParam(f.T) {
+			return f.T // inside a spec function a file parameter is its file id
+		}
 		return x.gsel(st, "ghost.fid", f.T)
 	}
 	g["fileSize"] = func(x *Exec, st *State, e *ast.CallExpr) []Val {
@@ -365,4 +378,12 @@ func (x *Exec) idxBig() *Term {
 		return x.c.BV(64, bigPow2(62))
 	}
 	return x.c.IntBig(bigPow2(62))
+}
+
+// recvExpr: the receiver expression of a method call.
+func recvExpr(e *ast.CallExpr) ast.Expr {
+	if se, ok := ast.Unparen(e.Fun).(*ast.SelectorExpr); ok {
+		return se.X
+	}
+	return nil
 }
